@@ -116,7 +116,7 @@ def run(ctx):
         sizes = [(200, 20), (300, 25), (500, 30), (800, 40), (1000, 50), (2000, 50)]
     else:
         sizes = [(2000, 100), (5000, 100), (10000, 200), (20000, 300), (40000, 100), (65536, 50)]
-    neighbor_scale(ctx, I, sizes, 60 if q else 600)
-    small_games(ctx, I, 40 if q else 400, 100 if q else 900)
+    neighbor_scale(ctx, I, sizes, 400 if q else 2400)
+    small_games(ctx, I, 40 if q else 400, 800 if q else 3600)
     return ctx.finish("proof", "C06_neighbor(_point), C06_brute, C04_telescope: in exact arithmetic the modelled scores of each method sum to v(all) - v(none) at every size. "
                       "Floating-point accuracy at scale cannot be a Lean theorem; it is measured here against exact integer right-hand sides on a size ladder.", RULE)
